@@ -674,6 +674,27 @@ void ev_dump(FILE *f, int last)
         }
 }
 
+/* structural invariants of the parser object, looked at after every service call (quiescent for the object: nothing runs between two calls).
+ * Only facts whose violation makes the NEXT access leave its array or follow a wild pointer (C03), and the bookkeeping of the bounded event ring (C13). */
+static bool in_table(const struct cat_command *c) { return c == NULL || cmd_index(c) >= 0; }
+static void object_invariants(void)
+{
+        const struct cat_object *o = W.at; const struct cat_unsolicited_fsm *u = &o->unsolicited_fsm;
+        if (o->desc != W.desc || o->io != &IO || o->commands_num != W.ncmds) viol("C03", "object-invariant", "descriptor / io pointer / command count of the parser object changed");
+        if ((int)o->state < (int)CAT_STATE_ERROR || (int)o->state > (int)CAT_STATE_PRINT_CMD) viol("C03", "object-invariant", "command FSM state %d is not a state", (int)o->state);
+        if (!in_table(o->cmd) || !in_table(u->cmd)) viol("C03", "object-invariant", "current command pointer of the %s machine points outside the command table", in_table(o->cmd) ? "event" : "command");
+        if (u->unsolicited_cmd_buffer_head >= (size_t)QCAP || u->unsolicited_cmd_buffer_tail >= (size_t)QCAP)
+                viol("C03", "object-invariant", "event ring index out of range: head %zu tail %zu capacity %d", u->unsolicited_cmd_buffer_head, u->unsolicited_cmd_buffer_tail, QCAP);
+        else {
+                if (u->unsolicited_cmd_buffer_items_count > (size_t)QCAP || (u->unsolicited_cmd_buffer_head + u->unsolicited_cmd_buffer_items_count) % (size_t)QCAP != u->unsolicited_cmd_buffer_tail)
+                        viol("C13", "ring-bookkeeping", "event ring inconsistent: head %zu + count %zu != tail %zu (capacity %d)", u->unsolicited_cmd_buffer_head, u->unsolicited_cmd_buffer_items_count, u->unsolicited_cmd_buffer_tail, QCAP);
+                for (size_t k = 0, i = u->unsolicited_cmd_buffer_head; k < u->unsolicited_cmd_buffer_items_count && k < (size_t)QCAP; k++, i = (i + 1) % (size_t)QCAP) {
+                        const struct cat_unsolicited_cmd *it = &u->unsolicited_cmd_buffer[i];
+                        if (it->cmd == NULL || !in_table(it->cmd) || (it->type != CAT_CMD_TYPE_READ && it->type != CAT_CMD_TYPE_TEST)) { viol("C13", "ring-bookkeeping", "waiting event %zu of %zu is not an accepted event (command %p, type %d)", k, u->unsolicited_cmd_buffer_items_count, (const void *)it->cmd, (int)it->type); break; }
+                }
+        }
+        CNT("object_invariant_checks");
+}
 cat_status svc(void)
 {
         int pair = ((int)W.at->state + 1) * 11 + (int)W.at->unsolicited_fsm.state;
@@ -686,6 +707,7 @@ cat_status svc(void)
         if (SHADOW) shadow_step();          /* the other parser instance is serviced in turns with the one under observation */
         cat_status s = cat_service(W.at);
         PHASE = 0;
+        if (RAW_COMPARES) object_invariants();
         return s;
 }
 void fmt_bytes(char *dst, size_t cap, const uint8_t *p, size_t n)
